@@ -437,9 +437,9 @@ def check_tool_paths(ctx, tool):
                            want))
                     # the verdict carries the evaluated name
                     for v, x in verdicts:
-                        if nm is not None and U(nm) not in U(en.expand(
-                                x.node.args[0], 1)) and U(nm) not in U(
-                                    x.node.args[0]):
+                        if nm is not None and not any(
+                                U(nm) in U(en.expand(a_, 1)) or U(nm) in U(a_)
+                                for a_ in x.node.args):
                             ob('C19.CALL', False, x.line, U(x.node)[:80],
                                'the verdict is not printed under the name '
                                'of the evaluated policy')
